@@ -9,6 +9,9 @@ ENGINES = [
 ]
 
 PHASES = {
+    "C11": [
+        {"pkg": "e2", "test": "TestC11Lifecycle", "phase": "C11/session-lifecycle"},
+    ],
     "C05": [
         {"pkg": "e2", "test": "TestC05StoreBeforeAck", "phase": "C05/store-before-ack"},
     ],
@@ -51,6 +54,12 @@ PHASES = {
 }
 
 META = {
+    "C11": {
+        "engine": "E2-brokermc",
+        "technique": "explicit enumeration of a session-script grammar x termination causes x gossip delivery policies on the 1-3 node in-process broker under virtual time",
+        "text": "Every script connect(keep-alive 2|10 s) . up to 2 (quick) / 3 (thorough) middle events (subscribe sets, unsubscribes, ping, idle 1 s / 3.5 s / 0.9K / 1.4K, also directly after CONNACK) . cause (none, DISCONNECT, drop, silence > 2K, second CONNECT, displacement on the same / another node, failure of the hosting node) under gossip policies auto / withhold-all / reverse / withhold-one; the session must survive every legal script, and after a cause the connection is closed, record and subscriptions vanish from every node, nothing more is written to it, and every listed subscription belongs to a listed session connected on the node it names.",
+        "note": "Only silences <= 1.4 x keep-alive are required to be survived (any allowance >= 1.5 x keep-alive satisfies the oracle); the broker may, not must, end a session silent for > 2K; clean broker shutdown is outside the quantifier.",
+    },
     "C05": {
         "engine": "E2-brokermc",
         "technique": "explicit enumeration of publisher scripts x subscriber placements x write-fault subsets on a 2-node in-process broker with recording / fault-injecting log proxies and inter-node transport",
